@@ -75,10 +75,12 @@ def project():
     probe = ('    { for d in $(find "$VERIF_PROJ" /bob -maxdepth 5 -name workspace -type d 2>/dev/null | LC_ALL=C sort); do\n'
              '        w=no; if ( : > "$d/.probe-$$" ) 2>/dev/null; then w=yes; rm -f "$d/.probe-$$"; fi\n'
              '        n=$(ls -A "$d" 2>/dev/null | wc -l)\n'
-             '        echo "$d $n $w"; done; echo "CWD $BOB_CWD"; for a in "$@"; do echo "ARG $a"; done; } > "$BOB_CWD/.visible-%s" 2>/dev/null || true\n')
+             '        echo "$d $n $w $(ls -A "$d" 2>/dev/null | tr "\\n" ",")x"; done; echo "CWD $BOB_CWD"; for a in "$@"; do echo "ARG $a"; done; } > "$BOB_CWD/.visible-%s" 2>/dev/null || true\n')
     f['recipes/sbdep.yaml'] = 'buildScript: "echo dep > f"\npackageScript: "cp $1/f ."\n'
     f['recipes/sbother.yaml'] = 'buildScript: "echo other > f"\npackageScript: "cp $1/f ."\n'
-    f['recipes/sbuser.yaml'] = ('depends: [sbdep]\nbuildVars: [VERIF_PROJ]\nbuildScript: |\n' + probe % 'build' + '    echo x > out\npackageScript: |\n' + probe % 'package' + '    cp $1/out .\n    cp $1/.visible-build .\n')
+    # the dependency is available to the checkout step as well (checkoutDep): the checkout script may see the dependency's result, nothing else
+    f['recipes/sbuser.yaml'] = ('depends:\n    - name: sbdep\n      checkoutDep: True\ncheckoutVars: [VERIF_PROJ]\ncheckoutDeterministic: True\ncheckoutScript: |\n' + probe % 'checkout' + '    echo s > src.txt\n'
+                                'buildVars: [VERIF_PROJ]\nbuildScript: |\n' + probe % 'build' + '    echo x > out\npackageScript: |\n' + probe % 'package' + '    cp $1/out .\n    cp $1/.visible-build .\n')
     # sandbox image assembled from host directories; a tool with libs that is built OUTSIDE the sandbox (listed before the sandbox dependency)
     f['recipes/sbimage.yaml'] = ('buildScript: "mkdir -p usr bin sbin lib lib64 etc tmp"\npackageScript: "cp -a $1/* ."\n'
                                  'provideSandbox:\n    paths: ["/usr/local/bin", "/usr/bin", "/bin"]\n    mount: ["/usr", "/bin", "/sbin", "/lib", "/lib64", "/etc"]\n')
@@ -244,8 +246,8 @@ def scenario(job):
         else:
             proj = D.d
             dist = os.path.join(proj, 'dev', 'dist', 'sbuser', '1', 'workspace')
-            for step in ('build', 'package'):
-                p = os.path.join(dist, '.visible-' + step)
+            for step in ('checkout', 'build', 'package'):
+                p = os.path.join(dist, '.visible-' + step) if step != 'checkout' else os.path.join(proj, 'dev', 'src', 'sbuser', '1', 'workspace', '.visible-checkout')
                 if not os.path.exists(p):
                     viol.append(('no-dump', 'sandbox probe of %s missing' % step)); continue
                 seen, cwd, args_ = {}, None, []
@@ -253,18 +255,19 @@ def scenario(job):
                     if l.startswith('CWD '): cwd = l[4:]
                     elif l.startswith('ARG '): args_.append(l[4:])
                     else:
-                        d_, n_, w_ = l.rsplit(' ', 2); seen[d_] = (int(n_), w_)
+                        d_, n_, w_, ls_ = l.rsplit(' ', 3); seen[d_] = (int(n_), w_, ls_)
                 ncmp += 1
                 deps = [a for a in args_ if not a.startswith('/invalid')]
                 allowed = {cwd} | set(deps)
-                foreign = sorted(d_ for d_ in seen if d_ not in allowed)
+                # earlier steps of the own package may be visible too: the own checkout is recognised by its content
+                foreign = sorted(d_ for d_ in seen if d_ not in allowed and not (step == 'package' and 'src.txt,' in seen[d_][2]))
                 if foreign: viol.append(('sandbox-sees-undeclared-workspace:' + mode, '%s step sees %s' % (step, foreign)))
-                writable = sorted(d_ for d_, (n_, w_) in seen.items() if w_ == 'yes' and d_ != cwd)
+                writable = sorted(d_ for d_, (n_, w_, ls_) in seen.items() if w_ == 'yes' and d_ != cwd)
                 if writable: viol.append(('sandbox-dependency-writable:' + mode, '%s step can write %s' % (step, writable)))
                 for d_ in deps:
                     if d_ not in seen or seen[d_][0] == 0: viol.append(('sandbox-hides-declared-dependency:' + mode, '%s step cannot see %s' % (step, d_)))
                 if cwd not in seen or seen[cwd][1] != 'yes': viol.append(('sandbox-own-workspace-readonly:' + mode, '%s step cannot write its own workspace' % step))
-                if len(deps) != 1: viol.append(('sandbox-arguments-wrong:' + mode, '%s step got arguments %s' % (step, args_)))
+                if len(deps) != {'checkout': 1, 'build': 2, 'package': 1}[step]: viol.append(('sandbox-arguments-wrong:' + mode, '%s step got arguments %s' % (step, args_)))
     if name == 'sandbox-image':
         rc, out = e1.run_bob(D.d, ['dev', '--sandbox', 'imguser'], host)
         if rc != 0:
